@@ -339,17 +339,13 @@ def check(prog, run):
         r.instance("%s routes through _handle_non_nullable_value: %s" % (q, uses))
         if not uses:
             run.report(r, "%s:%s:unchecked" % (mod, q), f.where(), "non-null completion does not check for null")
-    ae = prog.get_func(WRAP, "ResolutionContext.add_error")
-    run.looked_at(ae)
-    txt = ast.unparse(ae.node)
-    r.instance("add_error appends to the per-request list")
-    if "self._errors.append(err)" not in txt or "err.path = path if path is not None else err.path" not in txt:
-        run.report(r, "%s:ResolutionContext.add_error:shape" % WRAP, ae.where(), "add_error does not set the path and append the error")
+    check_add_error(prog, run, r)
 
     check_memo_keys(prog, run)
     check_seen_scope(prog, run)
 
     check_default_resolver(prog, run)
+    check_context_threading(prog, run, "V1")
 
     # ---- H1 request isolation
     r = run.rule("H1", "no request-scoped state outlives a request: executor caches are instance attributes created in __init__, "
@@ -438,8 +434,8 @@ def memo_sites(cls):
     return out
 
 
-def check_memo_keys(prog, run):
-    r = run.rule("H2", "every per-request memo table (try: return self.C[key] / except KeyError: compute and store) is keyed by "
+def check_memo_keys(prog, run, rule_id="H2"):
+    r = run.rule(rule_id, "every per-request memo table (try: return self.C[key] / except KeyError: compute and store) is keyed by "
                        "every parameter its computation depends on: a parameter used in the miss branch but absent from the key "
                        "makes two different requests share one entry", 4)
     for modname, cname in ((WRAP, "ResolutionContext"), (EXE, "Executor")):
@@ -483,7 +479,8 @@ def check_seen_scope(prog, run, rule_id="K5"):
     r = run.rule(rule_id, "the visited-fragment set of collect_fields / collect_fields_untyped is scoped to one selection set: only "
                           "their own recursive calls pass it on; every other caller starts a fresh set (a set shared across nesting "
                           "levels drops a fragment legitimately spread again deeper down); a fragment is marked visited only on a path "
-                          "that merged its fields", 3)
+                          "that merged its fields; whatever is collected from a fragment is handed to _merge, which extends the "
+                          "existing group of every response key exactly once", 3)
     for fname in ("collect_fields", "collect_fields_untyped"):
         target = prog.get_func(CF, fname)
         idx = target.params.index("_seen_fragments") if "_seen_fragments" in target.params else None
@@ -508,6 +505,23 @@ def check_seen_scope(prog, run, rule_id="K5"):
             if isinstance(n, ast.Call) and isinstance(n.func, ast.Name) and n.func.id == "_merge":
                 return "merge"
             return None
+        def ev2(n, fname=fname):
+            if isinstance(n, ast.Call) and isinstance(n.func, ast.Name) and n.func.id == fname:
+                return "collect"
+            if isinstance(n, ast.Call) and isinstance(n.func, ast.Name) and n.func.id == "_merge" and any(
+                    isinstance(x, ast.Call) and isinstance(x.func, ast.Name) and x.func.id == fname for x in ast.walk(n)):
+                return "merge"
+            return None
+        paths2, _ = event_paths(None, ev2, body=loops[0].body, may_raise=lambda n: None, cap=12)
+        collected = [q for q in paths2 if "collect" in q]
+        r.instance("%s: %d iteration paths collect a fragment's fields, all handed to _merge: %s" % (fname, len(collected), all("merge" in q for q in collected)))
+        for q in collected:
+            if "merge" not in q:
+                run.report(r, "%s:%s:collected-without-merge" % (CF, fname), target.where(loops[0]),
+                           "the fields collected from a fragment are not handed to _merge (which extends the group of every response "
+                           "key): fields whose key already exists in the enclosing selection are dropped, so their sub-selections are "
+                           "neither executed nor measured")
+                break
         normal, _ = event_paths(None, ev, body=loops[0].body, may_raise=lambda n: None, cap=12)
         marked = [seq for seq in normal if "mark" in seq]
         r.instance("%s: %d iteration paths mark a fragment visited, all of them merge it: %s" % (fname, len(marked), all("merge" in q for q in marked)))
@@ -519,6 +533,26 @@ def check_seen_scope(prog, run, rule_id="K5"):
                            "`continue`): a spread switched off by @skip/@include, or one whose type condition does not apply here, "
                            "suppresses every later spread of the same fragment in this selection set")
                 break
+        # _merge extends the existing group of every key
+        mg = prog.get_func(CF, "_merge")
+        mloops = [n for n in mg.node.body if isinstance(n, ast.For)]
+        shapes.require(len(mloops) == 1, "_merge: loop not found")
+
+        def ev3(n):
+            if isinstance(n, ast.Call) and isinstance(n.func, ast.Attribute) and n.func.attr == "extend" and isinstance(n.func.value, ast.Subscript):
+                return "extend"
+            if isinstance(n, ast.AugAssign) and isinstance(n.op, ast.Add) and isinstance(n.target, ast.Subscript):
+                return "extend"
+            return None
+        mp, _ = event_paths(None, ev3, body=mloops[0].body, may_raise=lambda n: None, cap=12)
+        if fname == "collect_fields":
+            r.instance("_merge: every iteration path extends into[key]: %s" % all(q.count("extend") == 1 for q in mp))
+            for q in mp:
+                if q.count("extend") != 1:
+                    run.report(r, "%s:_merge:not-extending" % CF, mg.where(mloops[0]),
+                               "a path through _merge's loop does not extend the existing group exactly once: fields of a key that is "
+                               "already present are dropped (or duplicated)")
+                    break
         # the default must create a fresh set per top-level call
         fresh = any(isinstance(n, ast.Assign) and ast.unparse(n.targets[0]) == "_seen_fragments" and "set()" in ast.unparse(n.value) for n in own_nodes(target.node))
         r.instance("%s creates a fresh set when none is given: %s" % (fname, fresh))
@@ -582,3 +616,56 @@ def check_default_resolver(prog, run):
     got = [n for n, _e in ev2.values() if isinstance(n, ast.Call) and isinstance(n.func, ast.Name) and alias(n.func.id) == "getattr"]
     r.instance("object parent: getattr reachable = %s" % bool(got))
     shapes.require(bool(got), "C04.R1: control failed — getattr(root, ...) is not reached for a non-mapping parent")
+
+
+def check_context_threading(prog, run, rule_id):
+    """V1: context parameters (variables, fragments, ...) are handed on at every call."""
+    from .. import ctxparams
+    r = run.rule(rule_id, "context threading in execution/** and utilities/**: when a function hands its own parameter p on, unchanged "
+                          "and under the same name, to an optional parameter p of a callee at one call site (variables, fragments, "
+                          "visited sets, the error node), every one of its calls to that callee hands p on — a call that leaves p "
+                          "to the callee's default evaluates that part without the context (variables inside a singleton literal "
+                          "wrapped into a list are no longer substituted)", 5)
+    funcs = [f for f in prog.all_funcs() if f.module.name.startswith(("py_gql.execution", "py_gql.utilities"))]
+    inst, probs = ctxparams.check(prog, funcs)
+    for i in inst:
+        r.instance(i)
+    for g, n, f, p in probs:
+        run.report(r, "%s:%s:drops-context(%s->%s)" % (g.module.name, g.qualname, p, f.qualname), g.where(n),
+                   "`%s` calls %s without `%s` although its other calls pass it on: that sub-computation runs with the default "
+                   "(no %s)" % (norm_stmt(n, 80), f.qualname, p, p))
+
+
+def check_add_error(prog, run, r):
+    """add_error(err, path, node): when a path is given the error carries exactly that path; the error is always appended."""
+    ae = prog.get_func(WRAP, "ResolutionContext.add_error")
+    run.looked_at(ae)
+    ps = [p for p in ae.params if p != prog.self_name(ae)]
+    shapes.require(len(ps) >= 2, "add_error(err, path, ...) signature changed")
+    err, path = ps[0], ps[1]
+    atom = "%s is None" % path
+    try:
+        _ev, exits = boolx.walk_under(ae.node, lambda t: False if t == atom else None)
+    except ValueError as e:
+        raise AnalysisError("add_error: %s" % e)
+    r.instance("add_error: %d executions with a path given" % len(exits))
+    for kind, st, env in exits:
+        atoms = {k: v for k, v in env.items() if k not in (boolx.CALLS, boolx.STMTS)}
+        appended = any(isinstance(c.func, ast.Attribute) and c.func.attr == "append" and c.args and ast.unparse(c.args[0]) == err
+                       for c in env.get(boolx.CALLS, ()))
+        val = None
+        for x in env.get(boolx.STMTS, ()):
+            if isinstance(x, ast.Assign) and ast.unparse(x.targets[0]) == "%s.path" % err:
+                v = x.value
+                while isinstance(v, ast.IfExp):
+                    try:
+                        v = v.body if boolx.evaluate(v.test, atoms) else v.orelse
+                    except KeyError:
+                        break
+                val = ast.unparse(v)
+        if kind == "raise" or not appended or val != path:
+            cond = ", ".join("%s=%s" % kv for kv in sorted(atoms.items()))
+            run.report(r, "%s:ResolutionContext.add_error:path-not-taken" % WRAP, ae.where(st) if st is not None else ae.where(),
+                       "when a response path is given (%s) add_error can finish with err.path = %s%s: the error reported for the "
+                       "nulled field does not carry that field's path" % (cond, val, "" if appended else " and without appending the error"))
+            break
